@@ -3,10 +3,117 @@
 #include "mp/flat/redef/MIP/converter_mip.h"
 #include "mp/flat/model_api_connect.h"
 #include "recmodelapi.h"
+#include "rec_c04_impl.h"
+
+#include "recjson.h"
+
+// ---- C20: read-only access to the value presolver's registered link ranges (private member `brl_`)
+// through the explicit-instantiation rule (no change to the library).  Used only when RECSOLVER_LINKS=1.
+// (valcvt.h can be included in one translation unit only: valcvt-node.h defines non-inline specializations.)
+namespace recpriv {
+template <class Tag, typename Tag::type M> struct Rob { friend typename Tag::type get(Tag) { return M; } };
+struct BrlTag { typedef mp::pre::LinkRangeList mp::pre::ValuePresolverImpl::*type; friend type get(BrlTag); };
+template struct Rob<BrlTag, &mp::pre::ValuePresolverImpl::brl_>;
+}
+
+namespace mp {
+static std::string RecNodes(const std::vector<pre::NodeRange> &v) {
+  std::string r = "[";
+  for (size_t i = 0; i < v.size(); ++i) {
+    if (i) r += ",";
+    auto ir = v[i].GetIndexRange();
+    r += "[" + rec::str(v[i].GetValueNode()->GetName()) + "," + std::to_string(ir.beg_) + "," + std::to_string(ir.end_ - 1) + "]";
+  }
+  return r + "]";
+}
+
+void RecLogFinalLinks(pre::BasicValuePresolver &bvp, RecState &st) {
+  auto *impl = dynamic_cast<pre::ValuePresolverImpl *>(&bvp);
+  if (!impl) { st.Log("{\"ev\":\"link_final_unavailable\"}"); return; }
+  const pre::LinkRangeList &brl = (*impl).*get(recpriv::BrlTag());
+  pre::BasicLink::EntryItems ei;
+  int irange = 0;
+  for (const auto &lr : brl) {
+    for (int i = lr.ir_.beg_; i != lr.ir_.end_; ++i) {
+      lr.b_.ExportEntryItems(ei, i);
+      st.Log("{\"ev\":\"link_final\",\"range\":" + std::to_string(irange) + ",\"type\":" + rec::str(lr.b_.GetTypeName()) +
+             ",\"entry\":" + std::to_string(i) + ",\"src\":" + RecNodes(ei.src_items_) + ",\"dst\":" + RecNodes(ei.dest_items_) + "}");
+    }
+    ++irange;
+  }
+}
+}  // namespace mp
 
 namespace mp {
 std::unique_ptr<BasicModelManager>
 CreateRecModelMgr(RecCommon &cc, Env &e, pre::BasicValuePresolver *&pPre) {
-  return CreateModelMgrWithFlatConverter<RecModelAPI, MIPFlatConverter>(cc, e, pPre);
+  // same steps as CreateModelMgrWithFlatConverter<RecModelAPI, MIPFlatConverter>(cc, e, pPre),
+  // keeping the converter pointer so that C04 can log the range constraints behind Range2Slk entries
+  using SolverFlatCvt = FlatCvtImpl<MIPFlatConverter, RecModelAPI>;
+  using SolverProblemFlattener = mp::ProblemFltImpl<mp::ProblemFlattener, mp::Problem, SolverFlatCvt>;
+  auto pcvt = new SolverProblemFlattener(e);
+  auto res = CreateModelManagerWithStdBuilder(std::unique_ptr<BasicConverter<mp::Problem> >{pcvt});
+  pcvt->GetFlatCvt().GetModelAPI().set_other(&cc);
+  cc.set_other(&pcvt->GetFlatCvt().GetModelAPI());
+  pPre = &pcvt->GetFlatCvt().GetValuePresolver();
+  if (cc.st())
+    cc.st()->rangecon = [pcvt](bool quad, int i) -> std::string {
+      // "own": the range constraint the entry belongs to; "used": the constraint that
+      // RangeCon2Slack::PresolveSolutionEntry really reads.  Since /repo 0119379 (SlackLink = RangeCon2Slack<MC, ItemType>)
+      // that is the entry's own constraint also for the quadratic converter (before: always GetConstraint<LinConRange>(i)).
+      auto &cvt = pcvt->GetFlatCvt();
+      std::string own = quad ? rec::data(cvt.template GetConstraint<QuadConRange>(i)) : rec::data(cvt.template GetConstraint<LinConRange>(i));
+      std::string used = own;
+      return "{\"own\":" + own + ",\"used\":" + used + "}";
+    };
+  return res;
+}
+}  // namespace mp
+
+
+// ---- C19 extension: dump the link entries *as they exist when values/names are presolved*
+// (env RECSOLVER_LINKS=<file>), in execution order, same JSON shape as the cvt:writegraph link records.
+// The exported graph can be stale: CopyLink/Many2Many entries are extended in place after export.
+// ValuePresolverImpl::brl_ is private; it is read through the explicit-instantiation idiom (no change to mp).
+namespace {
+template <class Tag> struct Stolen { static typename Tag::type ptr; };
+template <class Tag> typename Tag::type Stolen<Tag>::ptr;
+template <class Tag, typename Tag::type p> struct Rob { Rob() { Stolen<Tag>::ptr = p; } static Rob inst; };
+template <class Tag, typename Tag::type p> Rob<Tag, p> Rob<Tag, p>::inst;
+struct BrlTag { typedef mp::pre::LinkRangeList mp::pre::ValuePresolverImpl::*type; };
+template struct Rob<BrlTag, &mp::pre::ValuePresolverImpl::brl_>;
+
+std::string NodesJSON(const std::vector<mp::pre::NodeRange> &v) {
+  std::string r = "[";
+  for (size_t i = 0; i < v.size(); ++i) {
+    if (i) r += ",";
+    auto ir = v[i].GetIndexRange();
+    r += "{" + rec::str(v[i].GetValueNode()->GetName()) + ":[" + std::to_string(ir.beg_) + "," + std::to_string(ir.end_ - 1) + "]}";
+  }
+  return r + "]";
+}
+}  // namespace
+
+namespace mp {
+void RecDumpLinks(pre::BasicValuePresolver &bp) {
+  const char *fn = std::getenv("RECSOLVER_LINKS");
+  if (!fn || (fn[0] == '1' && fn[1] == 0)) return;   // "1" selects the in-log variant (RecLogFinalLinks)
+  auto *impl = dynamic_cast<mp::pre::ValuePresolverImpl *>(&bp);
+  FILE *f = std::fopen(fn, "w");
+  if (!f) return;
+  if (impl) {
+    const mp::pre::LinkRangeList &brl = impl->*Stolen<BrlTag>::ptr;
+    mp::pre::BasicLink::EntryItems ei;
+    int k = 0;
+    for (const auto &lr : brl) {
+      for (int i = lr.ir_.beg_; i != lr.ir_.end_; ++i) {
+        lr.b_.ExportEntryItems(ei, i);
+        std::fprintf(f, "{\"link_index\":[%d,%d],\"link_type\":%s,\"src_nodes\":%s,\"dest_nodes\":%s}\n", k, i,
+                     rec::str(lr.b_.GetTypeName()).c_str(), NodesJSON(ei.src_items_).c_str(), NodesJSON(ei.dest_items_).c_str());
+      }
+      ++k;
+    }
+  }
+  std::fclose(f);
 }
 }  // namespace mp
